@@ -45,6 +45,7 @@ func init() {
 	register("C20", "world", 1, simC20World)
 	register("C03", "sets", 5, simC03Sets)
 	register("C03", "laws", 1, simC03Laws)
+	register("C10", "protocol", 1, simC10Protocol)
 }
 
 func pickSim(prop string, index uint64) simEntry {
